@@ -2,7 +2,7 @@
    Property theorems only; proofs live in Proofs/. *)
 From Coq Require Import String ZArith List Bool.
 From XV Require Import Base.Label Base.LSet Base.ODict Base.Attr Base.Outcome Model.Hypergraph Model.HgCheck
-  Proofs.HgViews Proofs.HgInv Proofs.HgInvOps Proofs.HgStep Model.PyIR Gen.Mutators Proofs.MutatorSource.
+  Proofs.HgViews Proofs.HgInv Proofs.HgInvOps Proofs.HgStep Model.PyIR Gen.Mutators Proofs.MutatorSource Proofs.SourceInvHg.
 Import ListNotations.
 
 (* the empty hypergraph satisfies the invariant *)
@@ -79,3 +79,18 @@ Proof.
   split; [exact remove_edges_from_is_source|]. split; [exact clear_is_source|exact clear_edges_is_source].
 Qed.
 Print Assumptions C01_core_mutators_are_source.
+
+(* ... and therefore the class invariant holds of the regenerated programs themselves: running any of the nine on a state with
+   Inv (no None key) ends, returning or raising, in a state with Inv *)
+Theorem C01_source_programs_keep_Inv : forall s, Inv s -> ~ In LNone (keys (h_node s)) -> has LNone (h_edge s) = false ->
+  (forall n a, Inv (st_of (run_method_a src_add_node [n] [] a s))) /\
+  (forall e n, Inv (st_of (run_method src_add_node_to_edge [e; n] [] s))) /\
+  (forall e, Inv (st_of (run_method src_remove_edge [e] [] s))) /\
+  (forall n strong re, Inv (st_of (run_method src_remove_node [n] [strong; re] s))) /\
+  (forall e n re, Inv (st_of (run_method src_remove_node_from_edge [e; n] [re] s))) /\
+  (forall members idx a, idx <> Some LNone -> Inv (st_of (run_method_m src_add_edge_guards src_add_edge members idx a s))) /\
+  (forall es, Inv (st_of (run_method_l src_remove_edges_from es [] s))) /\
+  (forall b, Inv (st_of (run_method_l src_clear [] [b] s))) /\
+  Inv (st_of (run_method_l src_clear_edges [] [] s)).
+Proof. exact source_programs_keep_Inv. Qed.
+Print Assumptions C01_source_programs_keep_Inv.
